@@ -6,6 +6,7 @@ from typing import Any, Dict, List
 
 from harness.extract import action_mask as x_mask
 from harness.extract import action_templates as x_templ
+from harness.extract import request_callers as x_callers
 from harness.extract import request_core as x_core
 from harness.extract import request_schema as x_schema
 from harness.extract import request_validators as x_valid
@@ -39,7 +40,10 @@ MANIFEST = {
             "folder / two folders, services, applications of a host / two ports of a network node and whose history drives the "
             "siblings apart), the real mask bit with whether the real __call__ reaches a (stubbed) handler, executes entries for real "
             "against their bit, steps the environment against the mask read before the step (countdown boundaries), checks that "
-            "nothing of the mask survives a reset and that computing the mask is a pure observation.",
+            "nothing of the mask survives a reset and that computing the mask is a pure observation. The step around the mask is tied by "
+            "Gen/RequestCallers: the request the mask checks and the request the step executes are the same form_request of the same pair "
+            "(C11_gen_mask_and_step_form_same_request), and pre_timestep assigns no field a permission rule reads "
+            "(C11_gen_pretimestep_disjoint_from_rules).",
     "note": "C11-specific: form_request of each action is exercised on the real classes, not modelled; validator truth values are read "
             "from the real objects; that the step's own pre-processing changes no rule's truth is tested (boundary family), not proved; "
             "PrimaiteRayEnv wrappers are not driven.",
@@ -47,7 +51,7 @@ MANIFEST = {
                  "regenerated shape tables and translated validators; differential rig incl. full and sibling action maps",
     "design_ref": "5/C11",
 }
-MODULES = ["PrimaiteModel.Props.C11", "PrimaiteModel.Props.C11Memo", "PrimaiteModel.Props.C11Rules"]
+MODULES = ["PrimaiteModel.Props.C11", "PrimaiteModel.Props.C11Memo", "PrimaiteModel.Props.C11Rules", "PrimaiteModel.Props.C11Step"]
 EXE = "drv_c05"
 MASK_SCEN = ["data_manipulation", "test_primaite_session", "extended_config"]
 OTHER_SIBLING_SCEN = ["uc7_config", "firewall_actions_network", "basic_switched_network", "nodes_with_initial_files",
@@ -283,6 +287,12 @@ def env_level(ctx: Ctx):
             for kind in ("node-service-restart", "node-shutdown", "node-startup", "node-reset"):   # every trigger kind gets its turn
                 # restarts: every follow-up of up to two services (the countdown of a service is the one the step itself completes)
                 chosen += rng.shuffle([pf for pf in pairs if amap[pf[0]][0] == kind])[: (ctx.scale(10, 30) if kind == "node-service-restart" else ctx.scale(2, 6))]
+            # the follow-ups whose OWN rule flips when a power countdown completes (startup wants OFF, shutdown / reset want ON) are always
+            # among them: they are the ones that tell a countdown completed early or late from one completed on time
+            power = [pf for pf in pairs if amap[pf[0]][0] in ("node-shutdown", "node-startup", "node-reset")
+                     and amap[pf[1]][0] in ("node-shutdown", "node-startup", "node-reset")]
+            for kind in ("node-shutdown", "node-startup", "node-reset"):
+                chosen += [pf for pf in rng.shuffle([pf for pf in power if amap[pf[0]][0] == kind]) if pf not in chosen][: ctx.scale(2, 4)]
             for t, f in (chosen if idle is not None else []):
                 for k in range(0, ctx.scale(8, 10)):
                     plan = [t] + [idle] * k
@@ -394,6 +404,7 @@ def run(ctx: Ctx):
     with lean_lock():
         ctx.extract("RequestCore", x_core.emit)
         ctx.extract("ActionMask", x_mask.emit)
+        ctx.extract(x_callers.GEN_NAME, x_callers.emit)   # Props/C11Step: mask and step form the same request; pre_timestep vs rules
         ctx.extract(x_templ.GEN_NAME, x_templ.emit)    # Props/C11Rules imports Props/C05Guards -> C05Schema -> Gen/ActionTemplates
         ctx.extract(x_schema.GEN_NAME, x_schema.emit)  # Props/C11Memo: on which edges of the tree those rules stand
         ctx.extract(x_valid.GEN_NAME, x_valid.emit)   # Props/C11Memo: which translated rules read their options
